@@ -19,7 +19,23 @@ var (
 	c06S = xibctesting.GetChainID(1)
 )
 
-var c06Chains = []string{c06S, "tss-a", "tss-b", "tss-up", "nocl", c06T}
+// chain names; the last three are CASE SIBLINGS: "TSS-A" / "Tss-A" of "tss-a" (the second never has a client) and
+// the upper-case spelling of S (a TSS client when it exists). Chain names are compared byte-wise by the code.
+var c06SUp = strings.ToUpper(c06S)
+var c06Chains = []string{c06S, "tss-a", "tss-b", "tss-up", "nocl", c06T, "TSS-A", "Tss-A", c06SUp}
+
+// chains that may get a TSS client
+var c06TssChains = []string{"tss-a", "tss-b", "tss-up", "TSS-A", c06SUp}
+
+func c06Siblings(chain string) []string {
+	var out []string
+	for _, c := range c06Chains {
+		if c != chain && strings.EqualFold(c, chain) {
+			out = append(out, c)
+		}
+	}
+	return out
+}
 
 type c06Gen struct {
 	r       *Rec
@@ -239,13 +255,69 @@ func (g *c06Gen) okCommit(dst string) {
 	}
 }
 
+// Chain names that differ only in letter case are different chains. A signer registered for exactly one
+// sibling attempts every message kind for the other one (everything else valid), is then moved to the target by a
+// re-registration (now accepted), and moved away again (rejected again). The payout lookup of an acknowledgement
+// gets a relayer field that is registered only under the sibling name.
+func (g *c06Gen) genCaseSiblings() {
+	r := g.r
+	targets := []string{c06S}
+	for _, c := range []string{"tss-a", "TSS-A", c06SUp} {
+		if _, ok := g.tss[c]; ok {
+			targets = append(targets, c)
+		}
+	}
+	x := targets[r.Rng.Intn(len(targets))]
+	sib := c06Siblings(x)
+	y := sib[r.Rng.Intn(len(sib))]
+	a := c06Accts[r.Rng.Intn(c06NAcct-1)]
+	raw, canon := a.lower, a.lower
+	if t, ok := g.tss[x]; ok {
+		raw, canon = t, strings.ToLower(t)
+	}
+	only := "sibling-only-address"
+	if x == c06S { // the acknowledgement S committed fixes the relayer field
+		seq := g.ackSeq[x] + 1
+		if len(g.commits[x]) > 0 {
+			seq = g.commits[x][0]
+		}
+		only = c06PoolAckRelayer(seq)
+		if only == "" {
+			only = "x"
+		}
+	}
+	reg := func(chain, oaddr string) {
+		g.run(fmt.Sprintf("reg 1 %s 1 %s 1 %s", hxs(raw), hxs(chain), hxs(oaddr)))
+	}
+	attempt := func(chain, rl string) {
+		g.run(fmt.Sprintf("q %s %s %s", hxs(chain), hxs(raw), hxs(strings.ToUpper(rl))))
+		g.genUpd(raw, canon, chain, true)
+		g.genRecv(raw, canon, chain, true)
+		if chain != c06S {
+			g.okCommit(chain)
+		}
+		g.forceRl = &rl
+		g.genAck(raw, canon, chain, true)
+		g.forceRl = nil
+	}
+	reg(y, only)     // registered for the sibling only
+	attempt(x, only) // ... must confer nothing for x (payout of `only` must not resolve for x either)
+	if r.Rng.Intn(2) == 0 {
+		attempt(y, only)
+	}
+	reg(x, "moved-to-target") // re-registration moves the signer to x
+	attempt(x, "moved-to-target")
+	reg(y, only) // ... and away again
+	attempt(x, only)
+}
+
 // TSS-secured chain: receives and acknowledgements whose own proof field is empty / garbage / the TSS address /
 // another address / the signer's address — from the TSS account, from a registered relayer that is not the
 // TSS account, from an unregistered account. Everything else is valid, so the signer is the only obstacle.
 func (g *c06Gen) genTssProofs() {
 	r := g.r
 	var cands []string
-	for _, c := range []string{"tss-a", "tss-b", "tss-up"} {
+	for _, c := range c06TssChains {
 		if _, ok := g.tss[c]; ok {
 			cands = append(cands, c)
 		}
@@ -419,7 +491,7 @@ func (g *c06Gen) history(steps int, sweep bool) {
 	g.ackSeq = map[string]uint64{}
 	g.run("reset " + hxs(c06T))
 	g.run("mkclient " + hxs(c06S) + " oth")
-	for _, c := range []string{"tss-a", "tss-b", "tss-up"} {
+	for _, c := range c06TssChains {
 		if r.Rng.Intn(10) < 7 {
 			a := c06Accts[r.Rng.Intn(c06NAcct)]
 			addr := a.lower
@@ -440,7 +512,13 @@ func (g *c06Gen) history(steps int, sweep bool) {
 	if r.Rng.Intn(3) == 0 {
 		g.genTssProofs()
 	}
+	if r.Rng.Intn(2) == 0 {
+		g.genCaseSiblings()
+	}
 	for i := 0; i < steps; i++ {
+		if r.Rng.Intn(50) == 0 {
+			g.genCaseSiblings()
+		}
 		if r.Rng.Intn(40) == 0 {
 			g.genMultichain()
 		}
@@ -573,7 +651,7 @@ func TestC06(t *testing.T) {
 	c06EvmTable(run)
 	hist, sweepEvery := 80, 10
 	if r.Tier == "thorough" {
-		hist, sweepEvery = 600, 5
+		hist, sweepEvery = 350, 5
 	}
 	if n := envInt("VERIF_N", 0); n > 0 {
 		hist = int(n)
